@@ -10,9 +10,9 @@ Model of the zone-file parser `hickory_proto::serialize::txt::zone::Parser::pars
   lower-cased; a label starting with `_` bypasses IDNA (`Label::from_ascii`, case kept).  A label
   with a character ≥ 128 or an `xn--` prefix is *outside the model* (`ZR.unmodelled`).
 * `DNSClass::from_str`, `RecordType::from_str`;
-* `RData::from_tokens` for A, AAAA, NS, CNAME, PTR, ANAME, MX, SOA, SRV, TXT (incl. the std
+* `RData::from_tokens` for A, AAAA, NS, CNAME, PTR, ANAME, MX, SOA, SRV, TXT, HINFO, CAA (incl. the std
   `Ipv4Addr`/`Ipv6Addr`/`u16` `FromStr` parsers); the types `from_tokens` refuses are modelled as
-  the error they are; CAA, CERT, CSYNC, DS, HINFO, HTTPS, NAPTR, OPENPGPKEY, SMIMEA, SSHFP, SVCB,
+  the error they are; HINFO and CAA are modelled too; CERT, CSYNC, DS, HTTPS, NAPTR, OPENPGPKEY, SMIMEA, SSHFP, SVCB,
   TLSA are `unmodelled`;
 * `Context::insert`, `Ttl::take`, `RecordSet::from` / `RecordSet::insert` (rr/rr_set.rs).
 
@@ -122,6 +122,12 @@ def parseU16 (s : Str) : Option Nat :=
     let v := digitsVal ds
     if v > 65535 then none else some v
   else none
+
+/-- `u8::from_str` -/
+def parseU8 (s : Str) : Option Nat :=
+  match parseU16 s with
+  | some v => if v > 255 then none else some v
+  | none => none
 
 /-! ### `Ipv4Addr::from_str`, `Ipv6Addr::from_str` (core::net::parser) -/
 
@@ -299,7 +305,7 @@ def classOfStr (s : Str) : Option Nat :=
   else none
 
 inductive RType where
-  | a | aaaa | aname | cname | mx | ns | ptr | soa | srv | txt
+  | a | aaaa | aname | cname | mx | ns | ptr | soa | srv | txt | hinfo | caa
   /-- known mnemonic whose `from_tokens` is an unconditional error -/
   | refused
   /-- known, parseable, not modelled -/
@@ -308,7 +314,7 @@ inductive RType where
 
 def RType.code : RType → Nat
   | .a => 1 | .ns => 2 | .cname => 5 | .soa => 6 | .ptr => 12 | .mx => 15 | .txt => 16
-  | .aaaa => 28 | .srv => 33 | .aname => 65305 | .refused => 0 | .other => 0
+  | .aaaa => 28 | .srv => 33 | .aname => 65305 | .hinfo => 13 | .caa => 257 | .refused => 0 | .other => 0
 
 /-- mnemonics `RecordType::from_str` knows and `RData::from_tokens` refuses unconditionally -/
 def refusedNames : List Str :=
@@ -334,7 +340,6 @@ def otherNames : List Str :=
    [67, 69, 82, 84],  -- CERT
    [67, 83, 89, 78, 67],  -- CSYNC
    [68, 83],  -- DS
-   [72, 73, 78, 70, 79],  -- HINFO
    [72, 84, 84, 80, 83],  -- HTTPS
    [78, 65, 80, 84, 82],  -- NAPTR
    [79, 80, 69, 78, 80, 71, 80, 75, 69, 89],  -- OPENPGPKEY
@@ -356,6 +361,8 @@ def typeOfStr (s : Str) : Option RType :=
   else if s = [83, 79, 65] then some .soa
   else if s = [83, 82, 86] then some .srv
   else if s = [84, 88, 84] then some .txt
+  else if s = [72, 73, 78, 70, 79] then some .hinfo
+  else if s = [67, 65, 65] then some .caa
   else if refusedNames.contains s then some .refused
   else if otherNames.contains s then some .other
   else none
@@ -368,6 +375,8 @@ inductive RData where
   | soa (mname rname : Name) (serial refresh retry expire minimum : Nat)
   | srv (prio weight port : Nat) (n : Name)
   | txt (strs : List Bytes)
+  | hinfo (cpu os : Bytes)
+  | caa (critical : Bool) (reserved : Nat) (tag value : Bytes)
   deriving DecidableEq, Repr, Inhabited
 
 /-- derived `PartialEq` of `RData`: embedded names compare with `Name::eq` (case-insensitive) -/
@@ -380,6 +389,8 @@ def RData.eqv : RData → RData → Bool
     Name.eq m m' && Name.eq r r' && x1 == y1 && x2 == y2 && x3 == y3 && x4 == y4 && x5 == y5
   | .srv p w q n, .srv p' w' q' n' => p == p' && w == w' && q == q' && Name.eq n n'
   | .txt x, .txt y => x == y
+  | .hinfo c o, .hinfo c' o' => c == c' && o == o'
+  | .caa c r t v, .caa c' r' t' v' => c == c' && r == r' && t == t' && v == v'
   | _, _ => false
 
 /-- UTF-8 encoding of one scalar value -/
@@ -426,6 +437,12 @@ def rdataFromTokens (t : RType) (toks : List Str) (origin : Option Name) : ZR RD
     (nextTok r).bind fun (x, r) => (ZR.ofOption (parseU16 x)).bind fun port =>
     (nextTok r).bind fun (s, _) => (parseName s origin).bind fun n => .ok (.srv prio weight port n)
   | .txt => .ok (.txt (toks.map utf8))
+  | .hinfo =>
+    (nextTok toks).bind fun (cpu, r) => (nextTok r).bind fun (os, _) => .ok (.hinfo (utf8 cpu) (utf8 os))
+  | .caa =>
+    (nextTok toks).bind fun (fl, r) => (nextTok r).bind fun (tag, r) => (nextTok r).bind fun (value, _) =>
+    (ZR.ofOption (parseU8 fl)).bind fun flags =>
+      .ok (.caa (decide (flags ≥ 128)) (flags % 128) (utf8 tag) (utf8 value))
   | .refused => .err
   | .other => .unmodelled
 
